@@ -21,5 +21,15 @@ theorem el_cases : Tea.Gen.fact_el_cases = Tea.Doc.fact_el_cases := rfl
 theorem body_Program_Send : Tea.Gen.fact_body_Program_Send = Tea.Doc.fact_body_Program_Send := rfl
 theorem body_Program_handleCommands : Tea.Gen.fact_body_Program_handleCommands = Tea.Doc.fact_body_Program_handleCommands := rfl
 theorem sig_Program_Run : Tea.Gen.fact_sig_Program_Run = Tea.Doc.fact_sig_Program_Run := rfl
+theorem body_NewProgram : Tea.Gen.fact_body_NewProgram = Tea.Doc.fact_body_NewProgram := rfl
+theorem body_WithContext : Tea.Gen.fact_body_WithContext = Tea.Doc.fact_body_WithContext := rfl
+theorem body_WithOutput : Tea.Gen.fact_body_WithOutput = Tea.Doc.fact_body_WithOutput := rfl
+theorem body_WithInput : Tea.Gen.fact_body_WithInput = Tea.Doc.fact_body_WithInput := rfl
+theorem body_WithInputTTY : Tea.Gen.fact_body_WithInputTTY = Tea.Doc.fact_body_WithInputTTY := rfl
+theorem body_WithoutCatchPanics : Tea.Gen.fact_body_WithoutCatchPanics = Tea.Doc.fact_body_WithoutCatchPanics := rfl
+theorem body_WithoutRenderer : Tea.Gen.fact_body_WithoutRenderer = Tea.Doc.fact_body_WithoutRenderer := rfl
+theorem body_WithEnvironment : Tea.Gen.fact_body_WithEnvironment = Tea.Doc.fact_body_WithEnvironment := rfl
+theorem body_Program_Start : Tea.Gen.fact_body_Program_Start = Tea.Doc.fact_body_Program_Start := rfl
+theorem body_Program_StartReturningModel : Tea.Gen.fact_body_Program_StartReturningModel = Tea.Doc.fact_body_Program_StartReturningModel := rfl
 
 end Tea.Props.Bridge.C01
